@@ -20,9 +20,12 @@
 // fire in their original relative order, and a Replace'd callback keeps its position
 // relative to every other callback (differential run without the Replace steps).
 // A name that was given a second entry while it existed (Register under an existing name,
-// Replace carrying Before/After) is held to what the statement still fixes: some handler
-// of the name fires, none twice, the handler of a later plain Replace fires, and after a
-// Remove none of them fires - whichever way the second entry came about. The call that made the
+// Replace carrying Before/After) is held to what the statement still fixes: the handler handed
+// over by the LAST call under the name fires exactly once (that call returned nil: its function
+// is a registered, non-removed callback, or has taken the place of the callback of that name),
+// no handler twice, a handler that a Replace (plain or carrying a request) replaced does not fire,
+// and after a Remove none of them fires - whichever way the second entry came about. (Whether the
+// OLDER handler of a name that was merely registered again fires as well is left open.) The call that made the
 // NEWEST entry returned nil, so the named Before/After it carried has to hold for the handler of
 // the name that fires (gorm either moves the callback or reports "conflicting callback"); and a
 // callback that names such a name in its own Before/After still has to fire on that side of it
@@ -54,7 +57,16 @@
 //	removed-ran:registered-again  a handler taken out by Remove fired after the name was registered anew
 //	stale-handler                 a replaced handler fired instead of the replacement
 //	stale-handler:multi-entry     a name with several entries was Replace'd, only older handlers fired
+//	stale-handler:registered-again
+//	                              a name that existed was registered again (nil returned): the handler of that
+//	                              call never fired, an older handler of the name did
+//	stale-handler:replace-request a name that existed was Replace'd by a call carrying Before/After (nil
+//	                              returned): the new handler never fired, a replaced one did
+//	replaced-ran:multi-entry      the new handler of such a Replace fired and so did a handler it replaced
 //	not-once:missing:multi-entry  a name with several entries, not removed: none of its handlers fired
+//	<the four above>:older-star   same, and an OLDER entry of the name carries Before("*") / After("*") where the
+//	                              newest entry does not (gorm's pre-sort of the registry then puts the older entry
+//	                              behind the newest one); no +star, /single-request, /single-step suffix
 //	side:before / side:after      a Before/After(name) constraint is broken although an
 //	                              order satisfying all requested constraints exists
 //	side:star                     same for Before/After("*") (weak reading, see Assumptions), the callback
@@ -348,6 +360,7 @@ type block struct {
 	size       int
 	move       bool // the "move a callback" family instead of the plain enumeration
 	multi      bool // the "second entry under an existing name" family
+	pos        bool // the "built-in given a second entry that carries a request" family
 }
 
 // moveSeq enumerates the family "register u1 and u2, remove one of them, register it
@@ -520,6 +533,57 @@ func multiSeq(p *pipeline, idx int) []step {
 	return seq
 }
 
+// posSeq enumerates the family "a BUILT-IN x is given a second entry that carries a request", over
+// the full built-in alphabet of the pipeline (n built-ins: 16*n*(n+1) sequences of length 2..3):
+//
+//	first : Register(u1)                       (a user callback to name and to be named)
+//	call  : Before(t).Replace(x) | After(t).Replace(x) | Before(t).Register(x) | After(t).Register(x)
+//	x     : every built-in;  t : every other built-in, u1, "*"
+//	then  : nothing | Remove(x) | Replace(x) | After(x).Register(u2)
+//
+// The call returns an error (the request contradicts the position x has) or nil: then the handler it
+// handed over is the one that fires as x, once, and the replaced one does not.
+func posCount(p *pipeline) int { n := len(p.builtins); return 16 * n * (n + 1) }
+
+func posSeq(p *pipeline, idx int) []step {
+	n := len(p.builtins)
+	u1, u2 := userBase, userBase+1
+	tail := idx % 4
+	idx /= 4
+	form := idx % 4
+	idx /= 4
+	ti := idx % (n + 1)
+	x := idx / (n + 1)
+	var tg []int
+	for b := 0; b < n; b++ {
+		if b != x {
+			tg = append(tg, b)
+		}
+	}
+	tg = append(tg, u1, idStar)
+	t := tg[ti]
+	seq := []step{{Op: opRegister, Name: uint8(u1), Bef: none, Aft: none}}
+	s := step{Op: opReplace, Name: uint8(x), Bef: none, Aft: none}
+	if form >= 2 {
+		s.Op = opRegister
+	}
+	if form%2 == 0 {
+		s.Bef = uint8(t)
+	} else {
+		s.Aft = uint8(t)
+	}
+	seq = append(seq, s)
+	switch tail {
+	case 1:
+		seq = append(seq, step{Op: opRemove, Name: uint8(x), Bef: none, Aft: none})
+	case 2:
+		seq = append(seq, step{Op: opReplace, Name: uint8(x), Bef: none, Aft: none})
+	case 3:
+		seq = append(seq, step{Op: opRegister, Name: uint8(u2), Bef: none, Aft: uint8(x)})
+	}
+	return seq
+}
+
 var blockCache = map[string][]block{}
 
 func blocks(tier string) []block {
@@ -542,6 +606,7 @@ func blocks(tier string) []block {
 		}
 		out = append(out, block{pl: pl, length: 4, size: moveCount, move: true})
 		out = append(out, block{pl: pl, length: 5, size: multiCount, multi: true})
+		out = append(out, block{pl: pl, length: 3, size: posCount(p), pos: true})
 	}
 	blockCache[tier] = out
 	return out
@@ -735,9 +800,15 @@ type nameState struct {
 	// life of the name) carried a named request. Together with namedBy this is the structural
 	// precondition of the sorter's known rewriting of stored requests (cs[idx].before/after = c.name
 	// lands on the newest entry of the name it hits).
-	olderNamed   bool
-	dead         []int // handlers that belonged to the name when a Remove hit it (this and earlier lives)
-	removedMulti bool  // the Remove that ended the current/last life hit a multi name
+	olderNamed bool
+	// curBef / curAft: the requests of the newest entry of the name (of the registration that created it
+	// while it has one entry). olderStarB / olderStarA: an OLDER entry of this life carries Before("*") /
+	// After("*"). olderStar() is the structural precondition under which gorm's pre-sort of the registry
+	// ("*" entries are moved behind the others) puts an older entry of the name behind the newest one.
+	curBef, curAft         int
+	olderStarB, olderStarA bool
+	dead                   []int // handlers that belonged to the name when a Remove hit it (this and earlier lives)
+	removedMulti           bool  // the Remove that ended the current/last life hit a multi name
 }
 
 func has(l []int, v int) bool {
@@ -749,13 +820,29 @@ func has(l []int, v int) bool {
 	return false
 }
 
+// olderStar: an older entry of the name carries a "*" request on a side where the newest entry carries none.
+func (ns *nameState) olderStar() bool {
+	return ns.olderStarB && ns.curBef != idStar || ns.olderStarA && ns.curAft != idStar
+}
+
+// second files the requests of a new entry made under a name that exists.
+func (ns *nameState) second(bef, aft int) {
+	if ns.curBef == idStar {
+		ns.olderStarB = true
+	}
+	if ns.curAft == idStar {
+		ns.olderStarA = true
+	}
+	ns.curBef, ns.curAft = bef, aft
+}
+
 // unspec: the statement does not say where this callback has to be.
 func (ns *nameState) unspec() bool { return ns.weak || ns.multi }
 
 func model(p *pipeline, seq []step) map[int]*nameState {
 	m := map[int]*nameState{}
 	for i := range p.builtins {
-		m[i] = &nameState{live: true, handler: -1, bef: none, aft: none, mustLast: true}
+		m[i] = &nameState{live: true, handler: -1, bef: none, aft: none, curBef: none, curAft: none, mustLast: true}
 	}
 	everNamed := map[int]bool{} // names whose Register/Replace calls so far carried a named (not "*") request
 	fresh := func(n int, ns *nameState) {
@@ -775,9 +862,10 @@ func model(p *pipeline, seq []step) map[int]*nameState {
 				ns.alts = append(ns.alts, ns.handler)
 				ns.handler, ns.multi, ns.mustLast = i, true, false
 				ns.lastBef, ns.lastAft, ns.lastReplace, ns.olderNamed = int(s.Bef), int(s.Aft), false, everNamed[n]
+				ns.second(int(s.Bef), int(s.Aft))
 			} else {
 				// (a built-in name that was removed and is registered anew is no built-in any more: unspecified)
-				fresh(n, &nameState{live: true, weak: n < userBase, handler: i, bef: int(s.Bef), aft: int(s.Aft), mustLast: true})
+				fresh(n, &nameState{live: true, weak: n < userBase, handler: i, bef: int(s.Bef), aft: int(s.Aft), curBef: int(s.Bef), curAft: int(s.Aft), mustLast: true})
 			}
 		case opReplace:
 			if ns := m[n]; ns != nil && ns.live {
@@ -790,9 +878,10 @@ func model(p *pipeline, seq []step) map[int]*nameState {
 					ns.alts = append(ns.alts, ns.handler)
 					ns.handler, ns.multi, ns.mustLast = i, true, false
 					ns.lastBef, ns.lastAft, ns.lastReplace, ns.olderNamed = int(s.Bef), int(s.Aft), true, everNamed[n]
+					ns.second(int(s.Bef), int(s.Aft))
 				}
 			} else {
-				fresh(n, &nameState{live: true, weak: true, handler: i, bef: none, aft: none, mustLast: true})
+				fresh(n, &nameState{live: true, weak: true, handler: i, bef: none, aft: none, curBef: none, curAft: none, mustLast: true})
 			}
 		case opRemove:
 			if ns := m[n]; ns != nil && ns.live {
@@ -1475,14 +1564,41 @@ func check(p *pipeline, m map[int]*nameState, trace []ev, modeA, touched, failed
 					add("not-once:repeated", "%s fired %d times with the handler of step %d in one pipeline execution", p.nameOf(id), k, h)
 				}
 			}
-			if rep || ns.weak || stale[id] || modeA && id < userBase {
+			if rep || ns.weak || stale[id] {
 				continue
 			}
+			// The handler handed over by the LAST call under the name has to fire: that call returned nil,
+			// so its function is a registered callback (Register) or has taken the place of the callback of
+			// that name (Replace, with or without a request), and nothing removed or replaced it since.
+			// (mode A, built-in name: the newest handler is a stub and always visible; the older one is the
+			// pristine built-in, seen through its effect if it has a visible one)
 			st.multiChecked++
-			if n == 0 {
-				add("not-once:missing:multi-entry", "%s is registered (more than once) and not removed but none of its handlers fired", p.nameOf(id))
-			} else if ns.mustLast && fired[nh{id, ns.handler}] == 0 {
-				add("stale-handler:multi-entry", "%s was Replace'd last by step %d but only older handlers of the name fired", p.nameOf(id), ns.handler)
+			newest := fired[nh{id, ns.handler}]
+			var olderRan []string
+			for _, h := range ns.alts {
+				if fired[nh{id, h}] > 0 {
+					if h < 0 {
+						olderRan = append(olderRan, "the built-in")
+					} else {
+						olderRan = append(olderRan, fmt.Sprintf("that of step %d", h))
+					}
+				}
+			}
+			sfx := ""
+			if ns.olderStar() {
+				sfx = ":older-star" // (an older entry carries a "*" request that the newest does not: the pre-sort reorders them)
+			}
+			switch {
+			case newest == 0 && n == 0:
+				add("not-once:missing:multi-entry"+sfx, "%s is registered (more than once) and not removed but none of its handlers fired (the handler registered last is that of step %d)", p.nameOf(id), ns.handler)
+			case newest == 0 && ns.mustLast:
+				add("stale-handler:multi-entry"+sfx, "%s was Replace'd last by step %d but only older handlers of the name fired (%s)", p.nameOf(id), ns.handler, strings.Join(olderRan, ", "))
+			case newest == 0 && ns.lastReplace:
+				add("stale-handler:replace-request"+sfx, "%s existed and was Replace'd by step %d with a Before/After request (the call returned nil): the new handler never fired, a replaced one did (%s)", p.nameOf(id), ns.handler, strings.Join(olderRan, ", "))
+			case newest == 0:
+				add("stale-handler:registered-again"+sfx, "%s existed and was registered again by step %d (the call returned nil): the handler registered by that call never fired, an older one did (%s)", p.nameOf(id), ns.handler, strings.Join(olderRan, ", "))
+			case len(olderRan) > 0 && (ns.mustLast || ns.lastReplace):
+				add("replaced-ran:multi-entry"+sfx, "%s was Replace'd by step %d, its new handler fired, but so did a handler it replaced (%s)", p.nameOf(id), ns.handler, strings.Join(olderRan, ", "))
 			}
 			continue
 		}
@@ -1898,6 +2014,9 @@ func caseSeq(c *core.Ctx) (pl int, seq []step, origin string) {
 			if b.multi {
 				return b.pl, multiSeq(&pipelines[b.pl], idx), "exhaustive second-entry-family"
 			}
+			if b.pos {
+				return b.pl, posSeq(&pipelines[b.pl], idx), "exhaustive positioned-second-entry-of-a-built-in family"
+			}
 			return b.pl, decode(b.alpha, b.length, idx, true), fmt.Sprintf("exhaustive length %d", b.length)
 		}
 		idx -= b.size
@@ -1988,9 +2107,12 @@ func run(c *core.Ctx) {
 			}
 			// the known defects of the sorter all need two requests that interfere (one rewrites or
 			// contradicts the other): a sequence with a single Before/After request is a class of its own
-			if constrained <= 1 {
+			// (:older-star names its structural precondition itself: one "*" request on an older entry)
+			switch {
+			case strings.HasSuffix(cl0, ":older-star"):
+			case constrained <= 1:
 				cl += "/single-request"
-			} else if cSteps == 1 {
+			case cSteps == 1:
 				cl += "/single-step" // one call carries both a Before and an After request, no other call carries any
 			}
 			c.Inc("viol_" + mode + "_" + cl)
@@ -2290,10 +2412,11 @@ var Engine = &core.Engine{
 		"Calls: Register, Before(t).Register, After(t).Register, Before(t).After(t').Register (both chain orders), Replace, Remove; registered names: canonical fresh names, names removed earlier, and user names that exist at that moment (second entry under one name; in the enumeration such a call carries at most one request); targets t: every built-in of the pipeline, every user name introduced so far, the next name to be introduced (forward reference / unknown), '*'; Replace/Remove names: built-ins, user names, an unknown name. " +
 		"Enumerated completely: all sequences of length 0..2 on every pipeline (quick and thorough); thorough adds all sequences of length 3 with the built-in alphabet reduced to {first, main, last} built-in on Create/Update/Delete (full on Query/Row/Raw). Also enumerated on every pipeline: the 150 'move' sequences of length 4 (register u1 and u2 with plain/Before/After constraints, remove one, register it again with other constraints) and the 2 376 'second entry' sequences of length 3..6 (a name x that exists - a user callback registered plain / Before / After a built-in / Before or After '*', or the main built-in - gets a second entry through Register or through Before/After(..).Replace, with a neighbour registered plain / Before(x) / After(x); or through Before(built-in).After(neighbour).Register / Before(neighbour).Replace - so that the request of the second entry is in some sequences already met by the position x has and in others not: the call then has to return an error or x has to move; then nothing | Remove(x) | Remove, Register again (plain / After(neighbour)) | Replace(x) | Replace, Remove | Before(neighbour).Remove(x) | third Register, Remove | a third entry After(neighbour) | a third entry Before(built-in) | a new callback registered After(x)). Then random sequences of length 3..8 over 5 user names (forward and removed names as targets, unknown name, '*', remove-and-register-again moves, second entries under existing user and built-in names by Register or by a Replace carrying a request, Remove calls carrying a request): 5 000 quick / 300 000 thorough. " +
 		"Entry into the pipeline: after the healthy execution (Create with belongs-to and has-many / Preload+Find / Model.Updates / Select.Delete / Row or Rows / Exec) EVERY case executes the pipeline again on the same handle, once per entry, and each execution is held to the same model: (repeat) the same operation a second time; (failed-statement: the statement carries an error before the first callback runs) tx.AddError on a session handle, a Scope that adds an error, a *int as model/destination (Statement.Parse fails; not for Exec), a nil *Main (ErrInvalidValue), a transaction handle from a Begin that the driver failed [B]; (driver-fault) [B] a healthy statement with the driver failing the (1 + case mod 3)-th call it receives (begin / statement / commit, also those of nested association writes); (session) [B] a DryRun session, a handle from db.Begin() rolled back afterwards. [B] = only with the wrapped built-ins; the others also on the pristine registry, where a failed statement shows the stubs only. A problem that the healthy execution already has is not reported again; a new one gets the signature <class>@<entry group>. Then, in mode B, 1..3 late registration calls are made on the executed registry - a new name u9 is registered (by case mod 4: plain | Before(main built-in) | After(lowest live user callback) | Before(lowest live user callback)); the lowest live user callback is (by case/4 mod 3) Replace'd | registered again (a second entry made late) | registered again After(\"u9\") (a request its position normally contradicts: error return or move); the highest other live user callback is removed - and the pipeline is executed once more, checked against the model of the sequence including those calls (plain signatures, suffixes computed over the whole sequence). " +
-		"A name with several entries is held to: some handler fires, none twice, none after Remove, the handler of a later plain Replace fires, AND the named Before/After request of the call that made its newest entry holds (signatures side:before|after:multi-entry, :replace-request; :rewritten when another call names the callback or an earlier call under its name carried a named request); requests of other callbacks that name such a name are checked too (:multi-target). " +
+		"Also enumerated on every pipeline (n built-ins: 16*n*(n+1) sequences, 2 976 in all): a BUILT-IN x is given a second entry that carries a request, over the full built-in alphabet: Register(u1), then Before(t).Replace(x) | After(t).Replace(x) | Before(t).Register(x) | After(t).Register(x) for every built-in x and every t among the other built-ins, u1 and '*', then nothing | Remove(x) | Replace(x) | After(x).Register(u2). " +
+		"A name with several entries is held to: the handler handed over by the LAST call under the name (Register again, Replace carrying a request, or a later plain Replace) fires exactly once - in both observation modes, for user and built-in names (signatures stale-handler:registered-again, stale-handler:replace-request, stale-handler:multi-entry, not-once:missing:multi-entry; suffix :older-star when an older entry of the name carries a '*' request that the newest does not) -, no handler twice, none after Remove, a handler replaced by a Replace (plain or carrying a request) does not fire next to the new one (replaced-ran:multi-entry), AND the named Before/After request of the call that made its newest entry holds (signatures side:before|after:multi-entry, :replace-request; :rewritten when another call names the callback or an earlier call under its name carried a named request); requests of other callbacks that name such a name are checked too (:multi-target). " +
 		"Ordering violations are classified by whether an order satisfying everything requested exists (side:*) or not (contradiction-accepted:*: the statement then demands an error return). distinct = (pipeline, literal sequence); non-trivial = no call returned an error, the pipeline ran, and at least one Before/After constraint with a running target, one removal, one replacement or one name with several entries was checked against the firing order",
 	Assumptions: []string{
-		"a second entry under a name that exists at that moment (Register of an existing user or built-in name; Replace carrying Before/After, which gorm stores as an entry of its own) IS generated, but the statement does not say which of the handlers then runs nor where: demanded is that some handler of the name fires, none of them twice, that the handler of a later plain Replace fires, that after Remove(name) none of them fires (and a later Register of the name starts afresh), that the NAMED Before/After request carried by the call that made the newest entry holds for the handler that fires (that call returned nil; whether the name is one callback defined anew or several callbacks, this request stands), and that a callback naming such a name fires on the requested side of it. Not checked: the requests of the older entries of the name (a later registration may be read as superseding them), a '*' request of a second entry, the Replace position of such a name and the built-in order relative to it",
+		"a second entry under a name that exists at that moment (Register of an existing user or built-in name; Replace carrying Before/After, which gorm stores as an entry of its own) IS generated. The statement does not say where such a name then runs, nor whether the OLDER handler of a name that was merely registered again still runs as a callback of its own; it does say that every registered, non-removed callback runs exactly once and that Replace puts the new function in the place of the replaced callback. Demanded therefore: the handler handed over by the last call under the name (that call returned nil and nothing removed or replaced the handler since) fires exactly once - under either reading of a repeated Register it is a registered callback -, a handler that a later Replace (plain, or carrying Before/After) replaced does not fire, no handler fires twice, after Remove(name) none of them fires (and a later Register of the name starts afresh), that the NAMED Before/After request carried by the call that made the newest entry holds for the handler that fires (that call returned nil; whether the name is one callback defined anew or several callbacks, this request stands), and that a callback naming such a name fires on the requested side of it. Not checked: the requests of the older entries of the name (a later registration may be read as superseding them), a '*' request of a second entry, the Replace position of such a name and the built-in order relative to it",
 		"a built-in name that was removed and is then registered again is treated the same way (position unspecified); the random generator does not produce it",
 		"a callback never names itself in Before/After; the Before/After requests of a Remove call mean nothing (the callback is removed all the same); plain Replace and Remove are the only forms in the exhaustive enumeration; Match is not used",
 		"'*' is read weakly: a callback registered Before(\"*\") (After(\"*\")) must fire before (after) every built-in and every callback registered without any Before/After; nothing is demanded relative to callbacks that carry constraints of their own",
